@@ -263,6 +263,21 @@ def t2Eff (r : T2Raw) : T2Eff := ⟨t2Key r, r.index, r.labelMap, r.rest⟩
 
 def t2Stage {V : Type} (compute : T2Eff → V) (r : T2Raw) : V := compute (t2Eff r)
 
+/-! ### the quality digest
+
+`T2Raw.quality` is the code of the WHOLE `t2.quality` subtree the quality ops read (enabled; lexical bm25_k1/bm25_b/
+stopwords; fusion mode/alpha_semantic; mmr enabled/lambda/k; normalizer.enabled; aliasing.map_path): the digest that
+enters the key must be injective on it.  Miniature: the subtree as its list of (leaf, value) pairs. -/
+abbrev QCfg := List (Nat × Nat)
+
+/-- a digest of every leaf … -/
+def digestAll (q : QCfg) : QCfg := q
+/-- … and one that is rebuilt from "canonical values" and silently drops a leaf (e.g. `mmr.k`). -/
+def digestDrop (leaf : Nat) (q : QCfg) : QCfg := q.filter (fun kv => kv.1 != leaf)
+
+/-- two quality subtrees that differ only in leaf 7 (`mmr.k` = none / 2) -/
+def qOf (code : Nat) : QCfg := if code = 0 then [(1, 5), (7, 0)] else if code = 1 then [(1, 5), (7, 2)] else []
+
 /-- **IndexVersionFaithful.**  `T2Raw.index` is the code of the identity of the index object AND of everything T2
 reads from it (ids, texts, owners, dates, importance, exact vectors, in order).  `index_version()` is the only
 component of the key that stands for it: the key can only be sufficient for two requests whose equal versions imply
